@@ -5,9 +5,12 @@ from concurrent.futures import ThreadPoolExecutor
 LEVEL = "proof"
 LIBS = ["PowmLemmas.vo", "SqrtLemmas.vo", "InterpLemmas.vo"]
 
-def chunks(lst, k):
-    n = max(1, (len(lst) + k - 1) // k)
-    return [lst[i:i + n] for i in range(0, len(lst), n)]
+def chunks(lst, k, block=128):
+    """block-wise round robin: neighbouring records (same table) stay together, expensive regions are spread over the drivers"""
+    parts = [[] for _ in range(k)]
+    for i in range(0, len(lst), block):
+        parts[(i // block) % k] += lst[i:i + block]
+    return [p for p in parts if p]
 
 def par_correspond(res, recs, drv, jobs):
     """like vpl.correspond, but the records are split into contiguous chunks recomputed by parallel model drivers"""
